@@ -177,6 +177,26 @@ def reference(case):
     return in_domain, appending, recs
 
 
+def no_lone_cr(t):
+    """every CR is immediately followed by LF (Lean: noLoneCR)"""
+    return all(i + 1 < len(t) and t[i + 1] == '\n' for i, ch in enumerate(t) if ch == '\r')
+
+
+def default_reference(case):
+    """the same history on the DEFAULT io.StringIO() (newline='\\n': a line ends at LF only), or None when a
+    line-cutting op meets a lone CR in what is left to read (Lean: lfOnly / string_refines_default_StringIO)"""
+    ref = io.StringIO()
+    recs = []
+    for op in case['ops']:
+        if base(op) in ('rl', 'rL', 'rs', 'n', 'it', 'dr') and not no_lone_cr(ref.getvalue()[ref.tell():]):
+            return None
+        v = apply_op(ref, op, 'S', True)
+        if op[0] in ('w', 'wl', 'ro', 'fn'):
+            v = None
+        recs.append([['STOP'] if v is StopIteration else canon(v, True), ref.tell()])
+    return recs
+
+
 def mfr_text(case):
     """MultiFileReader() with no members joins with '' (all([]) is True): a text reader"""
     return bool(case['text']) or not case['files']
@@ -282,7 +302,9 @@ class C18(Property):
     ASSUMPTIONS = ['io.BytesIO and tempfile.TemporaryFile are the same abstract file (content + position) for the listed calls',
                    'text is a sequence of Unicode scalar values (no lone surrogates); UTF-8 is modelled as a prefix code with '
                    'Char.utf8Size code units per character, decoded incrementally (whole characters, rest kept)',
-                   'the reference for SpooledStringIO is io.StringIO(newline=""): LF, CR and CRLF end a line, untranslated',
+                   'the reference for SpooledStringIO is io.StringIO(newline=""): LF, CR and CRLF end a line, untranslated; '
+                   'the default io.StringIO() (LF only) is a second reference on histories whose line-cutting ops meet no '
+                   'lone CR (Lean: string_refines_default_StringIO; with a lone CR the two io objects differ themselves)',
                    'seek(n, SEEK_CUR) / seek(n, SEEK_END) on SpooledStringIO are judged as code-point moves (n forward / '
                    'only n = 0 from the end), the forms io.StringIO itself supports being the n = 0 ones',
                    'f.rollover() / f.fileno() (which rolls over first) may be called at any point: io reference = no-op',
@@ -817,6 +839,17 @@ class C18(Property):
                 seen_move = True
             if seen_move and base(op) in ('r', 'ra', 'rl', 'rL', 'rs', 'n', 'dr', 'it') and o['r'] not in (['D', '-'], ['L', []], ['STOP']):
                 useful = True
+        if text:
+            # second reading of "io.StringIO": the default constructor, where the theorem about it applies
+            dexp = default_reference(case)
+            if dexp is not None:
+                self.stats['default_StringIO_cases'] = self.stats.get('default_StringIO_cases', 0) + 1
+                for i, op in enumerate(case['ops']):
+                    if [obs[i]['r'], obs[i]['t']] != dexp[i]:
+                        return self.fail('default_stringio', 'op %d %r: returned %s at %r, the default io.StringIO() gives '
+                                         '%s at %r (no lone CR in what is read)' % (i, op, show(obs[i]['r']), obs[i]['t'],
+                                                                                 show(dexp[i][0]), dexp[i][1]),
+                                         i, op, obs[i]['r'], dexp[i][0])
         n = self.data_len(case)
         rolled = n >= case['ms']
         wide = text and any(ord(ch) > 127 for op in case['ops'] if op[0] in ('w', 'wl') for ch in written(op, 'S'))
